@@ -277,10 +277,22 @@ def run_setgroups(desc, seed, res):
                 for rq in (req & ~(1 << g), req | (1 << g)):
                     forced_group[len(pairs)] = g
                     pairs.append((cur, rq & 0xFFFF))
+    forced_kind = {}
+    if desc["part"] == 1 or desc["of"] == 1:
+        # current and requested membership differ in exactly one group (each of 0..15, joining and leaving) or in two
+        for g in range(16):
+            for rep in range(4):
+                cur = r.getrandbits(16)
+                for k2 in ("short", "int", "broadcast"):
+                    forced_kind[len(pairs)] = k2
+                    pairs.append((cur, cur ^ (1 << g)))
+                g2 = (g + 1 + rep) % 16
+                forced_kind[len(pairs)] = "short"
+                pairs.append((cur, cur ^ (1 << g) ^ (1 << g2)))
     for idx, (cur, req) in enumerate(pairs):
         curset = {i for i in range(16) if (cur >> i) & 1}
         reqset = {i for i in range(16) if (req >> i) & 1}
-        kind = "group" if idx in forced_group else kinds[idx % len(kinds)]
+        kind = "group" if idx in forced_group else forced_kind.get(idx, kinds[idx % len(kinds)])
         res.evaluations += 1
         res.distinct += 1
         res.hit("setgroups_checked")
